@@ -94,6 +94,17 @@ fn main() {
                         "B" => engine_b::replay(&r.config, &r.case),
                         "seed" => props_a::replay_seed(&r.config),
                         "C12s" => props_g::replay_c12s(&r.config),
+                        // the dotted-name cases are re-created from the golden images: the whole quick check is the replay
+                        "C12n" => {
+                            std::env::set_var("ABYV_OUT", std::env::temp_dir().join("abyv-replay-out"));
+                            if props_g::c12("quick", 1) == 0 {
+                                println!("REPLAY: no violation reproduced");
+                                0
+                            } else {
+                                println!("REPLAY VIOLATION");
+                                1
+                            }
+                        }
                         "C04" => props_d::replay_c04(&r.config),
                         "C07" => props_e::replay_c07(&r.config, &r.case),
                         "C09a" | "C09b" => props_f::replay_c09(&r.engine, &r.case),
